@@ -96,11 +96,14 @@ def matrix(all_props=False):
         if not os.path.exists(mp):
             continue
         meta = json.load(open(mp))
-        props = claims if all_props else [meta["property"]]
+        # "also_run": properties whose statement the change really violates when that is not (only) the one its author
+        # aimed at (a check must stay silent about what its own statement does not say)
+        props = claims if all_props else [meta["property"]] + [p for p in meta.get("also_run", []) if p in claims]
         res = run_checks(sid, props)
         caught = [p for p, r in res.items() if r["rc"] == 1]
         broken = [p for p, r in res.items() if r["rc"] not in (0, 1)]
-        sig = "; ".join(res[meta["property"]]["violations"][:2]) if meta["property"] in res else ""
+        sig = "; ".join((res[meta["property"]]["violations"] or
+                         [v for p in caught for v in res[p]["violations"]])[:2]) if meta["property"] in res else ""
         rows.append((sid, meta["property"], meta.get("needs", ""), ", ".join(caught) or "-", sig, ", ".join(broken)))
         meta["caught_by"] = caught
         meta["example_signatures"] = res.get(meta["property"], {}).get("violations", [])[:3]
